@@ -67,14 +67,15 @@ where
 
 def errJson (cls msg : String) : Json := Json.mkObj [("err", Json.str cls), ("msg", Json.str msg)]
 
-/-- {"op":"pulse_init","checks":bool,"eps":"1/1000000","n":10,"f":PW,"F":PW} -/
+/-- {"op":"pulse_init","checks":bool,"eps":"1/1000000","mono_tol":"0","n":10,"f":PW,"F":PW} -/
 def handlePulseInit (j : Json) : Except String Json := do
   let checks ← (← j.getObjVal? "checks").getBool?
   let eps ← getRat j "eps"
+  let tol ← getRat j "mono_tol"
   let n ← getNat j "n"
   let f ← getPW j "f"
   let F ← getPW j "F"
-  match constructRat checks eps n f.integ f.eval F.eval with
+  match constructRat checks eps tol n f.integ f.eval F.eval with
   | .ok () => pure (jOk Json.null)
   | .error .pulseNotValid => pure (errJson "AssertionError" "Pulse was not valid")
   | .error .paramNotValid => pure (errJson "AssertionError" "Parametrization was not valid")
